@@ -105,7 +105,7 @@ VERIF_MSGS = (
     "assertion failed", "possible arithmetic", "possible division", "could not prove termination",
     "decreases not satisfied", "possible bit shift", "recommendation not met", "unreachable",
     "cannot show", "failed to", "constructed value may fail", "might fail",
-    "loop invariant", "rlimit", "Resource limit",
+    "loop invariant", "rlimit", "Resource limit", "unable to prove", "post-condition of closure",
 )
 
 
